@@ -436,6 +436,11 @@ fn named_roots(rule: &Value, acc: &mut std::collections::BTreeSet<String>) -> Op
             Some(())
         }
         "missing" => {
+            // every operand is evaluated (eagerly) even when a first-operand array makes the rest irrelevant as keys:
+            // with any computed operand the named paths are not statically known
+            if args.iter().any(|a| model::eval::as_operation(a).is_some()) {
+                return None;
+            }
             let keys: Vec<&Value> = match args.first() {
                 Some(Value::Array(inner)) => inner.iter().collect(),
                 _ => args.clone(),
